@@ -49,6 +49,7 @@ type SliceLoop struct {
 	Body   *ssa.BasicBlock // successor taken when i < len(S)
 	Exit   *ssa.BasicBlock
 	Cond   *ssa.If
+	Index  *ssa.Phi // the counter (FindSliceLoopsByBound only)
 }
 
 // FindSliceLoops finds loops whose continuation test is `i < len(S)` (or
@@ -203,14 +204,22 @@ func FindSliceLoopsByBound(fn *ssa.Function, pred func(ssa.Value) bool) []SliceL
 	var out []SliceLoop
 	for _, cd := range ir.Conds(fn) {
 		b, ok := cd.V.(*ssa.BinOp)
-		if !ok || b.Op != token.LSS || !pred(b.Y) {
+		if !ok {
 			continue
 		}
-		if _, isPhi := b.X.(*ssa.Phi); !isPhi {
+		// `i < B`, or the same test written `B > i`
+		var idx *ssa.Phi
+		switch {
+		case b.Op == token.LSS && pred(b.Y):
+			idx, _ = b.X.(*ssa.Phi)
+		case b.Op == token.GTR && pred(b.X):
+			idx, _ = b.Y.(*ssa.Phi)
+		}
+		if idx == nil {
 			continue
 		}
 		blk := cd.If.Block()
-		out = append(out, SliceLoop{Header: blk, Body: blk.Succs[cd.TrueIdx()], Exit: blk.Succs[cd.FalseIdx()], Cond: cd.If})
+		out = append(out, SliceLoop{Header: blk, Body: blk.Succs[cd.TrueIdx()], Exit: blk.Succs[cd.FalseIdx()], Cond: cd.If, Index: idx})
 	}
 	return out
 }
